@@ -20,7 +20,7 @@ COQ = dict(imports=["Gen.DialectTables", "Spec.C18"], in_ty="in_C18", out_ty="ou
            corr="corr_C18", decide="check_C18", inclass="inclass_C18",
            model="(fun i : in_C18 => let '(d, c, r) := i in offline_chunks d c r)")
 THEOREMS = ["C18_decider_sound", "C18_main", "C18_grammar", "C18_per_migration", "C18_single_block", "C18_autocommit",
-            "C18_no_markers", "C18_content", "C18_tables_wf", "C18_table"]
+            "C18_no_markers", "C18_content", "C18_tables_wf", "C18_table", "C18_ignores_connection_state"]
 CASE_TIMEOUT = 30
 
 _TR_ERROR = None
@@ -42,13 +42,15 @@ TRUSTED = [
     "(on_version_apply callback / position) and given to the model as input: plans and bookkeeping are C01/C02/C03, not C18",
 ]
 ASSUME = [
-    "env.py is the stock wrapper `with context.begin_transaction(): context.run_migrations()` with literal_binds=True",
+    "env.py is the stock wrapper `with context.begin_transaction(): context.run_migrations()` with literal_binds=True, the "
+    "context configured from dialect_name or from a live sqlite Connection (fresh or already in a transaction)",
     "mssql_batch_separator / oracle_batch_separator options are left at the class defaults",
     "user statements never spell a transaction marker or a batch separator themselves; autocommit blocks are not nested",
 ]
 RULE = ("quick (exhaustive): {sqlite,postgresql,mysql,mariadb,mssql,oracle} x transactional_ddl {unset,True,False} x "
         "transaction_per_migration x {upgrade,downgrade,stamp} --sql x history {one,linear3,branched,merged,two roots} x "
-        "autocommit placement {none,first,middle,last revision} + linear3 with 7 body layouts (autocommit first/last/only/empty/"
+        "autocommit placement {none,first,middle,last revision} + the same lattice on sqlite with the offline context configured "
+        "from a LIVE Connection x {fresh, already in a transaction (autobegun)} + linear3 with 7 body layouts (autocommit first/last/only/empty/"
         "twice/multi-statement) ; thorough adds seeded random histories (2-7 revisions, merges, several roots), random bodies "
         "and partial ranges. non-trivial = effective transactional DDL and at least one step; distinct by encoded input")
 EXHAUSTIVE = {"quick": True, "thorough": True}
@@ -87,8 +89,18 @@ def _history(shape, auto, layout=None):
             for k, (i, dn) in enumerate(revs)]
 
 
-def _case(dialect, tddl, tpm, cmd, revs, spec, tag):
-    return {"dialect": dialect, "tddl": tddl, "tpm": tpm, "cmd": cmd, "spec": spec, "revs": revs, "tag": tag}
+def _case(dialect, tddl, tpm, cmd, revs, spec, tag, conn=None):
+    # conn: None = configured from dialect_name; "fresh"/"in_txn" = configured from a live sqlite Connection
+    return {"dialect": dialect, "tddl": tddl, "tpm": tpm, "cmd": cmd, "spec": spec, "revs": revs, "tag": tag, "conn": conn}
+
+
+def _conn_lattice(shape, auto):
+    revs = _history(shape, auto)
+    last = revs[-1]["id"]
+    for conn, tddl, tpm, cmd in itertools.product(["fresh", "in_txn"], [True, None, False], [False, True],
+                                                  ["upgrade", "downgrade", "stamp"]):
+        spec = {"upgrade": "heads", "downgrade": "%s:base" % last, "stamp": "heads"}[cmd]
+        yield _case("sqlite", tddl, tpm, cmd, revs, spec, "%s/%s" % (shape, auto), conn)
 
 
 def _lattice(shape, auto, layout=None, tag=None):
@@ -131,7 +143,9 @@ def _rand_case(rnd):
         spec = "%s:%s" % (tgt, rnd.choice(sorted(anc[tgt]) + ["base", "base"]))
     else:
         spec = rnd.choice(["heads", tgt, "%s:%s" % (rnd.choice(sorted(anc[tgt]) or ["base"]), tgt)])
-    return _case(rnd.choice(DIALECTS), rnd.choice([None, True, False]), rnd.random() < 0.5, cmd, revs, spec, "random")
+    conn = rnd.choice(["fresh", "in_txn"]) if rnd.random() < 0.25 else None
+    return _case("sqlite" if conn else rnd.choice(DIALECTS), rnd.choice([None, True, False]), rnd.random() < 0.5, cmd, revs,
+                 spec, "random", conn)
 
 
 def generate(tier, seed):
@@ -139,6 +153,8 @@ def generate(tier, seed):
         yield from _lattice(shape, auto)
     for name, layout in LAYOUTS.items():
         yield from _lattice("lin", "mid", layout, tag="lin/layout-" + name)
+    for shape, auto in itertools.product(["one", "lin", "br", "mg", "roots"], ["none", "first", "mid", "last"]):
+        yield from _conn_lattice(shape, auto)
     rnd = random.Random(seed * 7919 + 18)
     for _ in range(600 if tier == "quick" else 20000):
         yield _rand_case(rnd)
@@ -153,10 +169,26 @@ def search(tier, seed):
 ENV_PY = '''
 from alembic import context
 a = context.config.attributes
-context.configure(dialect_name=a["dn"], literal_binds=True, transaction_per_migration=a["tpm"],
-                  transactional_ddl=a["tddl"], on_version_apply=a["cb"])
-with context.begin_transaction():
-    context.run_migrations()
+if a["conn"] is None:
+    context.configure(dialect_name=a["dn"], literal_binds=True, transaction_per_migration=a["tpm"],
+                      transactional_ddl=a["tddl"], on_version_apply=a["cb"])
+    with context.begin_transaction():
+        context.run_migrations()
+else:
+    # --sql with a live Connection handed to configure() (used for its dialect only)
+    from sqlalchemy import create_engine, text
+    engine = create_engine("%s://" % a["dn"])
+    try:
+        with engine.connect() as connection:
+            if a["conn"] == "in_txn":
+                connection.execute(text("select 1"))      # SQLAlchemy 2.0 autobegin
+            assert connection.in_transaction() == (a["conn"] == "in_txn")
+            context.configure(connection=connection, literal_binds=True, transaction_per_migration=a["tpm"],
+                              transactional_ddl=a["tddl"], on_version_apply=a["cb"])
+            with context.begin_transaction():
+                context.run_migrations()
+    finally:
+        engine.dispose()
 '''
 
 
@@ -227,7 +259,7 @@ def run_case(h):
         cfg = Config()
         cfg.set_main_option("script_location", d)
         cfg.output_buffer = buf
-        cfg.attributes.update(dn=h["dialect"], tpm=h["tpm"], tddl=h["tddl"], cb=cb)
+        cfg.attributes.update(dn=h["dialect"], tpm=h["tpm"], tddl=h["tddl"], cb=cb, conn=h.get("conn"))
         err = None
         try:
             getattr(command, h["cmd"])(cfg, h["spec"], sql=True)
@@ -239,7 +271,8 @@ def run_case(h):
 
     if err:
         # the command refused the range (e.g. target not reachable): nothing was run; model: empty run from a non-empty state
-        return dict(cin="(dget %d%%nat, mkOcfg %s %s, mkRun false [])" % (didx, cf.opt(h["tddl"], cf.boolean), cf.boolean(h["tpm"])),
+        return dict(cin="(dget %d%%nat, mkOcfg %s %s %s, mkRun false [])" % (didx, cf.opt(h["tddl"], cf.boolean), cf.boolean(h["tpm"]),
+                                                                       cf.boolean(h.get("conn") == "in_txn")),
                     cout="[]" if not text else cf.lst(["RRaw " + cf.string(text[:40])]),
                     out={"err": err, "text": text[:200]}, nontrivial=False, shape="refused-" + h["cmd"])
 
@@ -297,12 +330,14 @@ def run_case(h):
         else:
             body = revs[s["up"][0]]["up" if s["upgrade"] else "dn"]
         osteps.append("mkOstep %s %d%%nat %s" % (_items(body), nver[j], cf.boolean(s["empty_after"])))
-    cin = "(dget %d%%nat, mkOcfg %s %s, mkRun %s %s)" % (
-        didx, cf.opt(h["tddl"], cf.boolean), cf.boolean(h["tpm"]), cf.boolean(init_empty), cf.lst(osteps))
+    cin = "(dget %d%%nat, mkOcfg %s %s %s, mkRun %s %s)" % (
+        didx, cf.opt(h["tddl"], cf.boolean), cf.boolean(h["tpm"]), cf.boolean(h.get("conn") == "in_txn"),
+        cf.boolean(init_empty), cf.lst(osteps))
     eff = h["tddl"] if h["tddl"] is not None else bool(_resolved_tddl(didx))
     has_auto = any(it != "s" for s in steps_seen if not s["stamp"]
                    for it in revs[s["up"][0]]["up" if s["upgrade"] else "dn"])
-    shape = "%s-tddl%d-tpm%d-%s" % (h["cmd"], eff, h["tpm"], "autocommit" if has_auto else "plain")
+    shape = "%s-tddl%d-tpm%d-%s%s" % (h["cmd"], eff, h["tpm"], "autocommit" if has_auto else "plain",
+                                      {None: "", "fresh": "-liveconn", "in_txn": "-liveconn-in-txn"}[h.get("conn")])
     return dict(cin=cin, cout=cf.lst(chunks), out={"events": " ".join(evs), "steps": len(steps_seen)},
                 nontrivial=bool(eff and steps_seen), shape=shape)
 
